@@ -401,8 +401,8 @@ def field_patterns(fd, rng, n_random):
 class C08(Prop):
     id = "C08"
     module = "C08"
-    theorems = ["C08_int_fields", "C08_absent", "C08_float_fields_partial"]
-    table_obligations = ["fields_wf", "fields_int_ok"]
+    theorems = ["C08_rows_ok", "C08_layout_fields_ok", "C08_carrier_roundtrip", "C08_field", "C08_absent", "C08_value_roundtrip", "C08_bias_0_01", "C08_bias_0_02"]
+    table_obligations = []
     rule = ("per df! row of the regenerated table: FDEC of patterns {0,1,2,3, all-ones, sign bit and neighbours, every one-hot, the invalid marker and its neighbours, random} "
             "(thorough: every pattern of rows up to 16 bits), then FENC of each decoded value; non-trivial = distinct (row, pattern) pairs")
 
